@@ -121,6 +121,12 @@ EXPR_TARGETS = [
         rewrites=[(r"\bSelf::", "DnsListenerHandler::")],
     ),
     dict(
+        name="reply_destination", file="crates/erbium-core/src/dhcp/mod.rs",
+        header=r"async\s+fn\s+recvdhcp\s*\([^{]*\{", binding="dst",
+        signature="pub fn lifted_reply_destination(request: &DHCPRequest, reply: &dhcppkt::Dhcp, ip4: erbium_net::nix::sys::socket::SockaddrIn) -> erbium_net::nix::sys::socket::SockaddrIn",
+        rewrites=[],
+    ),
+    dict(
         name="tcp_reply_bytes", file="crates/erbium-core/src/dns/mod.rs",
         header=r"async\s+fn\s+run_tcp\s*\([^{]*\{", binding="serialised",
         signature="pub fn lifted_tcp_reply_bytes(in_reply: &dnspkt::DNSPkt, msg: &DnsMessage) -> Vec<u8>",
